@@ -225,6 +225,10 @@ def known_finding_status(kf):
         r = DR.run_histories(exe, [hh])[0]
         import shutil
         shutil.rmtree(hh['user_dir'], ignore_errors=True)
+        if cond.get('panics'):
+            if r.get('panic') is not None:
+                return 're-executed on the current tree: still fails (panic: %s)' % (str(r.get('panic'))[:120],)
+            return 're-executed on the current tree: no longer fails'
         (a, fa), (b, fb) = cond['trace_fields_differ']
         va, vb = r['trace'][a].get(fa), r['trace'][b].get(fb)
         if r.get('panic') is None and va != vb:
